@@ -132,6 +132,49 @@ def error_set(ctx, b, seen=None):
     return es
 
 
+def error_profile(ctx, b):
+    """per crate-local error-returning callee of b: the variants a failure of that call can surface as -- the callee's own error
+    set when its error is propagated (`?`, `Err(e) => Err(e)`), the variants b constructs on the call's failure edge when it is
+    replaced (`Err(_) => Err(X)`, `.map_err(|_| X)`, `.ok_or(X)`).  {callee last name: frozenset(variants)}"""
+    from .core import outcome_edges
+    F = ctx.F
+    pv, cfg = F.prov(b), F.cfg(b)
+    rt = pv.of_local(0)
+    built = _err_variants(F, b)
+    prof = {}
+
+    def mentions_call(term, bi):
+        return term_mentions(term, lambda z: isinstance(z, tuple) and z and z[0] == 'call' and len(z) > 3 and z[3] == bi)
+
+    def propagated(bi):
+        found = []
+
+        def walk(z):
+            if not isinstance(z, tuple) or not z:
+                return
+            if z[0] == 'v' and str(z[2]).split('#')[0] in ('Err', 'Break') and mentions_call(z[1], bi):
+                found.append(1)
+            if z[0] == 'call' and z[1].endswith('from_residual') and any(mentions_call(a, bi) for a in z[2]):
+                found.append(1)
+            for y in z:
+                if isinstance(y, tuple):
+                    walk(y)
+        walk(rt)
+        return bool(found)
+    for bi, t in calls_in(b, lambda t: t.get('local') and t.get('res') in F.bodies):
+        cb = F.bodies[t['res']]
+        if 'error::Error' not in F.types[cb['locals'][0]]['s']:
+            continue
+        name = t['res'].split('::')[-1]
+        if propagated(bi):
+            vs = error_set(ctx, cb)
+        else:
+            se, fe = outcome_edges(F, b, bi)
+            vs = {v for wb, v in built if fe and cfg.edge_dominates(fe[0], fe[1], wb)}
+        prof[name] = frozenset(prof.get(name, frozenset()) | vs)
+    return prof
+
+
 def _ok_edge(F, b, call_bi, t):
     """(ok_edge, err_edge) of the branch on the Result returned by call t (match / `?` / is_err / through map_err & co.)"""
     from .core import outcome_edges
